@@ -72,11 +72,11 @@ PROPS = {
         assumptions=["ExtOK: ext.itoa n = Spec.Number.decimal n; finite floats: Grammar.IsNumber (ext.ryu64 b) / (ext.ryu32 b)",
                      "programs obey the serde contract on length hints (None or Some(exact)); type names are not the private "
                      "$serde_json::private::Number / RawValue tokens (feature-gated special cases, out of scope except Number's own impl)",
-                     "collect_str's Display writes its text in one write_str call (buffer-level statements only)"],
+                     "collect_str's Display writes its text in one write_str call (buffer-level statements only)",
+                     "c03_utf8: the program's strings are UTF-8 (SVal.utf8OK: every &str payload valid, every char a scalar value — what "
+                     "Rust's types guarantee) and the pretty indent string is valid UTF-8"],
         partial=["c03_display_partial: Display/{:#} are the two serializers by definition in the model; the fmt adapter is covered by "
-                 "the correspondence op `disp` only",
-                 "c03_utf8_partial: proved per string (every buffer of format_escaped_str is ASCII or a fragment cut at ASCII bytes); "
-                 "lift to whole programs and a ValidUtf8 conclusion pending the shared Spec.Utf8"],
+                 "the correspondence op `disp` only"],
         technique="Lean 4 theorems over all serializer programs: the transcription of Serializer/Compound/MapKeySerializer with both "
                   "Formatters (exact write_all buffer lists, State / current_indent / has_value bookkeeping) refines a structural "
                   "printer of the data-model image; the printer's output is derivable in the RFC 8259 grammar and denotes the image; "
@@ -85,13 +85,17 @@ PROPS = {
                    "c03_no_underflow, c03_recognise_sound) state for every serializer program with exact-or-absent length hints and every indent string "
                    "that the modelled serializer either fails exactly when a map key is not string-like (same error class) or emits "
                    "buffers whose concatenation equals the structural compact/pretty layout of the program's data-model image, which "
-                   "is derivable in the RFC 8259 grammar and denotes that image; hints do not change the buffers. The byte strings "
+                   "is derivable in the RFC 8259 grammar and denotes that image; hints do not change the buffers; and (c03_utf8, with the "
+                   "per-string form c03_utf8_fragments) for every program whose strings are UTF-8 and either formatter (pretty: any "
+                   "UTF-8 indent) every single buffer handed to the writer, and the whole output, is valid UTF-8 (Spec.Utf8.validUtf8): "
+                   "formatter literals ASCII by evaluation of the extracted constants, itoa/ryu text ASCII because it is a number, "
+                   "string buffers cut only at ASCII bytes. The byte strings "
                    "written by Formatter/PrettyFormatter are re-extracted from src/ser.rs on every run and the model is compared with "
                    "the real crate buffer by buffer on generated programs in four feature configurations, the crate's bytes being "
                    "re-parsed by an independent recogniser and compared with the image.",
         level_note="Trusted: Lean kernel + propext/Classical.choice/Quot.sound; extract.py; harness/driver comparison; itoa/ryu as "
                    "assumed parameters; serde default methods by documented semantics. Partial: Display adapter (correspondence "
-                   "only), UTF-8 validity (per string only).",
+                   "only).",
     ),
     "C17": dict(
         lean_targets=["SJ.Props.C17", "SJ.Audit.C17"],
@@ -400,16 +404,17 @@ PROPS["C13"] = dict(
     assumptions=["io::Bytes retries Interrupted and yields bytes in order; Write::write_all loops over short writes and retries "
                  "Interrupted (std) — exercised by the harness, not modelled",
                  "typed targets are judged by the property's predicate against the same bytes followed by a clean end of input"],
-    partial=["whole-program lift of 'every buffer is valid UTF-8 on its own' (c03_utf8_partial + c05_escape_buffers_utf8_cut give it per "
-             "string; the correspondence checks every recorded buffer with Spec.Utf8.validUtf8)",
-             "typed targets have no model yet"],
+    partial=["typed targets have no model yet"],
     technique="Lean 4 theorems: a reader fault instead of end of input turns the fold's finish into Io unless a delivered byte was "
               "already rejected (c13_read, by induction over the fold); writer prefix law over the serializer model's buffer list; "
               "fault-injecting readers/writers against the crate",
     level_text="Machine-checked: c13_read (reader failing after bs: the result is Io iff no delivered byte is rejected, else exactly the "
                "error those bytes produce from any source), c13_read_error_class (that error is Syntax-classified and positioned "
                "within the delivered bytes; never a value, never Eof), c13_write_prefix / c13_write_is_prefix (accepted bytes are the "
-               "first m bytes of the fault-free output; failure iff m < length). The crate is run with readers failing at every "
+               "first m bytes of the fault-free output; failure iff m < length), c13_buffers_utf8 (for every program whose strings are UTF-8 "
+               "and either formatter, every buffer passed to write_all is valid UTF-8 on its own, hence so is what a writer holds after "
+               "any number of whole buffers; the correspondence also checks every recorded buffer of the crate with "
+               "Spec.Utf8.validUtf8). The crate is run with readers failing at every "
                "byte and writers failing after every byte count, with chunking, short writes and Interrupted.",
     level_note="Trusted: Lean kernel + 3 standard axioms; extract.py; harness/driver; machine and serializer models. std::io retry "
                "loops are assumed. A genuine defect found by this check (Io error yielded twice by a stream) was repaired in /repo.",
